@@ -109,6 +109,32 @@ check(
     "DESIGN.md section 3, C11",
 )
 
+check(
+    "C12",
+    "enumeration of all specification shapes with random values against an independent solver of the linear mixture system; icontract class invariant on Mixture",
+    "All assignments of {absolute, percent, unspecified} to 1-5 components that the notation can express, with consistent / inconsistent / over-100 values "
+    "and with or without a caller-supplied system mass, are parsed by the real System; generability, system mass and every component's masses are compared "
+    "with the solution of the linear system, before and after print -> re-parse; abs = rel/100*sys is an invariant contract on the Mixture class.",
+    "Shapes are exhaustive for 1-5 one-token components, values are sampled. Trusts gbv/ref/mixture.py (80 lines).",
+    "DESIGN.md section 3, C12",
+)
+check(
+    "C13",
+    "offline checker over the sequence yielded by System.generator driven with a spying Generator (stop rule on the library's own partial sums, membership by residue audit)",
+    "Systems of 1-4 components of all archetypes are iterated; each yielded molecule must be complete and pass the residue audit against exactly one "
+    "declared component, the sequence must end exactly at the first partial sum >= system mass; non-generable systems must refuse iteration and single generation.",
+    "Held on the systems iterated. Membership is decided by the C05/C06 audit per component; residue ids <= 25.",
+    "DESIGN.md section 3, C13",
+)
+check(
+    "C14",
+    "trace monitor on the component-pick probability vectors seen at the Generator interface + measured mass shares with a variance-derived tolerance band (bounded restatement of convergence)",
+    "For multi-component systems with light and heavy molecules the constant pick vector p* and the measured mean molecule masses give the asymptotic mass "
+    "share implied by the selection law, compared with the declared fractions; measured shares are compared within max(6.5 sigma, 3 m_max/M) and re-confirmed.",
+    "The limit statement is restated as a finite-mass band. On the pinned tree the per-molecule pick law is a recorded known finding; any other deviation is reported.",
+    "DESIGN.md section 3, C14",
+)
+
 ALL = [f"C{i:02d}" for i in range(1, 21)]
 
 
